@@ -9,10 +9,23 @@ SAFE = ("TypeOK ExactlyOnceFIFO DbConsistent DbIsLog DurablePrefix NothingDroppe
 ACT = "RejectHasNoEffect CapacityOnPush StrictCapacityOnPush ReloadIsTheLog"
 
 
+# distinct / generated states measured with TLC 1.8.0 (expected-violation runs stop at the first violation)
+MEASURED = {
+    "Mempool_seq_quick.cfg": "370 646 / 1 274 312, depth 39", "Mempool_seq_mid.cfg": "1 318 696 / 5 893 932, depth 40",
+    "Mempool_seq_fail.cfg": "262 400 / 802 166, depth 38", "Mempool_seq_thorough.cfg": "4 069 866 / 16 724 536, depth 49",
+    "Mempool_conc_quick.cfg": "445 230 / 2 177 205, depth 32", "Mempool_conc_thorough.cfg": "7 259 132 / 29 231 131, depth 38",
+    "Mempool_live.cfg": "116 880 / 380 748, depth 31", "Mempool_live_ascoded.cfg": "54 218 / 173 644, depth 31",
+    "Mempool_ascoded.cfg": "2 520 572 / 11 935 349, depth 39", "Mempool_ascoded_quick.cfg": "641 572 / 2 914 397, depth 37",
+    "Mempool_ascoded_overflow.cfg": "165 952 / 620 276, depth 39", "Mempool_ascoded_conc.cfg": "2 013 772 / 10 014 969, depth 36",
+}
+
+
 def cfg(name, header, over, inv=SAFE, props=ACT, spec=None):
     c = dict(base)
     c.update(over)
     lines = ["\\* " + header]
+    if name in MEASURED:
+        lines.append("\\* measured: " + MEASURED[name] + " (distinct / generated states)")
     lines.append("CONSTANTS NTx = %(NTx)s Kind <- %(Kind)s Sender <- %(Sender)s Nonce <- %(Nonce)s NAccs = %(NAccs)s "
                  "Accs <- MCAccs StartEmpty = %(StartEmpty)s" % c)
     lines.append("  Max = %(Max)s NPushers = %(NPushers)s NConsumers = %(NConsumers)s Batch = %(Batch)s" % c)
@@ -32,7 +45,8 @@ def cfg(name, header, over, inv=SAFE, props=ACT, spec=None):
 NOSEQ = SAFE.replace(" SameOrder", "")
 CONC_ACT = "RejectHasNoEffect CapacityOnPush ReloadIsTheLog"
 # ---- the repaired design (both switches TRUE): every property
-cfg("Mempool_seq_quick.cfg", "repaired model, one caller at a time: API + durability + crash/close/reopen", {})
+cfg("Mempool_seq_quick.cfg", "repaired model, one caller at a time: API + durability + crash/close/reopen", dict(MaxPops=1))
+cfg("Mempool_seq_mid.cfg", "repaired model, one caller at a time, two pops", {})
 cfg("Mempool_seq_fail.cfg", "repaired model, a failing batch write (hole in the log)", dict(MaxFail=1, MaxCrash=0, MaxPops=1))
 cfg("Mempool_seq_thorough.cfg", "repaired model, sequential, larger: empty chain at start, two accounts, a failing write",
     dict(NTx=3, NAccs=1, MaxPush=5, MaxPops=2, MaxFail=0, StartEmpty="TRUE", MaxBlocks=2))
@@ -51,6 +65,9 @@ cfg("Mempool_ascoded.cfg", "the code as it is: what holds in spite of the two de
     inv="TypeOK ExactlyOnceFIFO NoLostWakeup TokenAfterAppend ExecBatchBound", props=ACT)
 cfg("Mempool_ascoded_quick.cfg", "the code as it is (quick tier): no crash",
     dict(DedupFix="FALSE", OverflowFix="FALSE", NConsumers=1, MaxPush=3, MaxPops=1, MaxCrash=0),
+    inv="TypeOK ExactlyOnceFIFO NoLostWakeup TokenAfterAppend ExecBatchBound", props=ACT)
+cfg("Mempool_ascoded_overflow.cfg", "the code as it is where the write channel fills (Drop fires): what still holds",
+    dict(DedupFix="FALSE", OverflowFix="FALSE", Max=2, MaxPush=4, MaxPops=3, MaxCrash=0, MaxClose=1, MaxBlocks=0),
     inv="TypeOK ExactlyOnceFIFO NoLostWakeup TokenAfterAppend ExecBatchBound", props=ACT)
 cfg("Mempool_ascoded_conc.cfg", "the code as it is, two concurrent pushers and a listener",
     dict(DedupFix="FALSE", OverflowFix="FALSE", NTx=2, NPushers=2, NConsumers=1, MaxPush=3, MaxCrash=0, MaxClose=1, MaxPops=1,
